@@ -786,6 +786,15 @@ func c11SmallConfigs(tier string) []c11Cfg {
 			c11Cfg{n: n, msgs: 2, progs: map[int][]c11Op{1: {N(2)}}, close: true},
 		)
 	}
+	if tier == "thorough" {
+		for _, n := range []int{0, 1} {
+			cs = append(cs,
+				c11Cfg{n: n, msgs: 3, progs: map[int][]c11Op{1: {R}}},
+				c11Cfg{n: n, msgs: 3, progs: map[int][]c11Op{1: {N(3)}, 2: {N(3)}}},
+				c11Cfg{n: n, msgs: 2, k: 1, progs: map[int][]c11Op{1: {N(2)}}},
+			)
+		}
+	}
 	return cs
 }
 
@@ -829,7 +838,7 @@ func runC11(a runArgs) error {
 	e.Preamble = "From GoCoap Require Import Reader.Model Reader.Spec."
 	e.ShardSize = 400
 	e.MaxBytes = 400000
-	e.Rule = "layer (a) stand-alone client.ReceivedMessageReader with a fake client: forced = cooperative scheduler behind the verifYield points executes a schedule (threads: producer P, loops L<i>, external TryToReplaceLoop caller X, closer C), every step's resulting scheduling point and the dispatch log are compared with the model; all schedules of the small configurations (depth-first by re-execution), random schedules of random configurations (queue sizes 0,1,2,16; handler programs of TryToReplaceLoop calls R and nested blocking requests N<r>; close). stat = hook-free free-running trials. layer (b) real udp/client.Conn over the in-memory session with handlers issuing nested Get/Do to depth 1-3. Distinct = distinct (configuration, executed schedule); non-trivial = at least one replacement request in the run (handler program or external caller)."
+	e.Rule = "layer (a) stand-alone client.ReceivedMessageReader with a fake client: forced = cooperative scheduler behind the verifYield points executes a schedule (threads: producer P, loops L<i>, external TryToReplaceLoop caller X, closer C), every step's resulting scheduling point and the dispatch log are compared with the model; all schedules of the small configurations (depth-first by re-execution), random schedules of random configurations (queue sizes 0,1,2,16; handler programs of TryToReplaceLoop calls R and nested blocking requests N<r>; close). stat = hook-free free-running trials. layer (b) real udp/client.Conn over the in-memory session with handlers issuing nested Do to depth 1-3 (thorough: up to 5). Distinct = distinct (configuration, executed schedule); non-trivial = at least one replacement request in the run (handler program or external caller)."
 	rng := NewRng(a.seed)
 	nontrivial := func(c c11Cfg) bool {
 		if c.k > 0 {
@@ -875,9 +884,9 @@ func runC11(a runArgs) error {
 	}
 	thorough := a.tier == "thorough"
 	// 1. all schedules of the small configurations (stateless depth-first search by re-execution)
-	perCfg := 120
+	perCfg := 1000
 	if thorough {
-		perCfg = 4000
+		perCfg = 8000
 	}
 	exhausted := 0
 	smalls := c11SmallConfigs(a.tier)
